@@ -30,6 +30,11 @@ def seq_chanclose(rep, rng, lines, expect):
     tags = ['t%d' % i for i in range(rng.choice([0, 0, 1, 2, 3, 4, 5]))]
     end = rng.choice(['ok', 'ok', 'timeout', 'conn'])
     code, text = rng.choice([200, 200, 320, 404]), rng.choice(['', 'bye', 'going-away'])
+    # a returned message parked on the open channel: the first Basic.Cancel of close() then fails with it; replies
+    # that arrive one poll later (instead of inside the write) let the wait loops run their checks
+    parked = state == 3 and not conn_closed and rng.random() < 0.3
+    late_replies = parked or rng.random() < 0.2
+    pending_replies = []
     written = []
     ch = Channel(1, conn, 1)
     ch.set_state(state)
@@ -37,6 +42,8 @@ def seq_chanclose(rep, rng, lines, expect):
     for t in tags:
         ch.add_consumer_tag(t)
     ch._inbound.append(spec.Basic.Deliver())
+    if parked:
+        ch.exceptions.append(amqpstorm.AMQPMessageError('returned', reply_code=312))
     import amqpstorm.rpc as arpc
     import types
     now = [0.0]
@@ -44,11 +51,17 @@ def seq_chanclose(rep, rng, lines, expect):
     def write_frame(cid, fr):
         if fr.name == 'Basic.Cancel':
             written.append('cancel:%s' % fr.consumer_tag)
-            ch.on_frame(spec.Basic.CancelOk(consumer_tag=fr.consumer_tag))
+            if late_replies:
+                pending_replies.append(spec.Basic.CancelOk(consumer_tag=fr.consumer_tag))
+            else:
+                ch.on_frame(spec.Basic.CancelOk(consumer_tag=fr.consumer_tag))
         elif fr.name == 'Channel.Close':
             written.append('close:%d:%s' % (fr.reply_code, fr.reply_text or '-'))
             if end == 'ok':
-                ch.rpc.on_frame(spec.Channel.CloseOk())
+                if late_replies:
+                    pending_replies.append(spec.Channel.CloseOk())
+                else:
+                    ch.rpc.on_frame(spec.Channel.CloseOk())
             elif end == 'conn':
                 conn.exceptions.append(amqpstorm.AMQPConnectionError('lost'))
         else:
@@ -57,6 +70,9 @@ def seq_chanclose(rep, rng, lines, expect):
     conn.write_frames = lambda cid, frs: written.append('frames')
 
     def sleep(s):
+        if pending_replies:
+            ch.on_frame(pending_replies.pop(0))
+            return
         now[0] += 100.0
     saved = arpc.time
     arpc.time = types.SimpleNamespace(time=lambda: now[0], sleep=sleep)
@@ -70,15 +86,18 @@ def seq_chanclose(rep, rng, lines, expect):
         arpc.time = saved
     res = '%s state=%d tags=%d inbound=%d raised=%s' % (' '.join(written) if written else '-', ch.current_state,
                                                      len(ch.consumer_tags), len(ch._inbound), 'true' if raised else 'false')
-    replay = {'kind': 'seq-chanclose', 'conn_closed': conn_closed, 'state': state, 'tags': tags, 'end': end, 'code': code, 'text': text}
+    replay = {'kind': 'seq-chanclose', 'conn_closed': conn_closed, 'state': state, 'tags': tags, 'end': end, 'code': code, 'text': text,
+              'parked': parked, 'late_replies': late_replies}
     # ---- monitor ----------------------------------------------------------------------------------
     closes = [w for w in written if w.startswith('close:')]
     cancels = [w[7:] for w in written if w.startswith('cancel:')]
     if state == 3 and not conn_closed:
         if closes != ['close:%d:%s' % (code, text or '-')]:
             rep.violation('C11/app-close-frame-count', 'Channel.close sent %r' % (closes,), replay)
-        if cancels != tags:
-            rep.violation('C11/consumers-not-cancelled', 'close() cancelled %r of %r' % (cancels, tags), replay)
+        if cancels != (tags[:1] if parked else tags):
+            rep.violation('C11/consumers-not-cancelled', 'close() cancelled %r of %r (a returned message was parked: %r)' % (cancels, tags, parked), replay)
+        if raised and end == 'ok':
+            rep.violation('C11/close-raised-although-closeok-arrived', 'close() raised although the broker answered with CloseOk (parked error: %r)' % (parked,), replay)
         if written and not written[-1].startswith('close:'):
             rep.violation('C11/close-not-last', 'frames after Channel.Close: %r' % (written,), replay)
     elif state == 0 and written:
@@ -93,7 +112,7 @@ def seq_chanclose(rep, rng, lines, expect):
     rep.count('seqb_end', end)
     rep.count('seqb_tags', len(tags))
     if not conn_closed:
-        lines.append('c11.chanclose 0 %d %s %d %s 0 %s' % (state, ','.join(tags) or '-', code, text or '-', end))
+        lines.append('c11.chanclose 0 %d %s %d %s %d %s' % (state, ','.join(tags) or '-', code, text or '-', 1 if (parked and tags) else 0, end))
         expect.append(res)
 
 
